@@ -25,9 +25,10 @@ type c20Op struct {
 }
 
 type c20Path struct {
-	Min int64   `json:"min"`
-	Max int64   `json:"max"`
-	Ops []c20Op `json:"ops"`
+	Min   int64        `json:"min"`
+	Max   int64        `json:"max"`
+	Ops   []c20Op      `json:"ops"`
+	Clock clockSetting `json:"environment,omitempty"` // what the library's clock reads return while the path runs
 }
 
 func c20Key(g *uePolicyContainer.IDGenerator) string {
@@ -156,7 +157,17 @@ func c20Exec(c *core.Ctx, in c20Path) (key string, ok bool) {
 	return key, true
 }
 
-func c20PathCase(c *core.Ctx, in c20Path) { c20Exec(c, in) }
+func c20PathCase(c *core.Ctx, in c20Path) { c20ExecEnv(c, in) }
+
+// c20ExecEnv runs the path under its environment setting (the allocator must not consult the clock at all: whatever
+// the clock says, every history satisfies the property).
+func c20ExecEnv(c *core.Ctx, in c20Path) (key string, ok bool) {
+	if in.Clock == (clockSetting{}) {
+		return c20Exec(c, in)
+	}
+	withClock(in.Clock, func() { key, ok = c20Exec(c, in) })
+	return
+}
 
 type c20Config struct{ min, size int64 }
 
@@ -249,6 +260,26 @@ func c20Run(c *core.Ctx) {
 				}
 			}
 		}
+		// the environment: every path of up to two operations again under every answer of the clock seam (14 instants:
+		// two dates x the sub-second phases where rounding and truncation differ), for the small ranges
+		if clockSeam && cfg.size >= 2 && cfg.size <= 4 {
+			for _, cs := range clockAlphabet() {
+				c.Begin("path", "IDGenerator", c20Path{Min: min, Max: max, Clock: cs})
+				for _, a := range ops {
+					pa := c20Path{Min: min, Max: max, Ops: []c20Op{a}, Clock: cs}
+					transitions++
+					if _, ok := c20ExecEnv(c, pa); !ok {
+						continue
+					}
+					for _, b := range ops {
+						transitions++
+						c20ExecEnv(c, c20Path{Min: min, Max: max, Ops: []c20Op{a, b}, Clock: cs})
+					}
+				}
+				c.Tick()
+			}
+			c.Seen("clock_settings_explored", fmt.Sprint(len(clockAlphabet())))
+		}
 		c.Add("states", states)
 		c.Add("transitions", transitions)
 		c.Add("traces_validated_against_impl", transitions)
@@ -282,7 +313,7 @@ func init() {
 		ID: "C20", Level: "model_checking", Run: c20Run,
 		Shards: func(tier string) int { return 16 },
 		Rule: func(tier string) string {
-			return "BFS to fixpoint over the reachable states (live set, scan offset) of the real IDGenerator for every configured range; every operation (Allocate, Allocate_inRange(a,b) for all a,b in [max(0,min-2), max+2] (out-of-bounds and reversed pairs included), FreeID(x) for all x in [min-1,max+1]) is applied in every state by replaying the shortest path on a fresh allocator; each transition is checked against a live-set model and followed by the closure check (repeated Allocate returns exactly the free ids). States are distinct by the values of all fields of the allocator."
+			return "BFS to fixpoint over the reachable states (live set, scan offset) of the real IDGenerator for every configured range; every operation (Allocate, Allocate_inRange(a,b) for all a,b in [max(0,min-2), max+2] (out-of-bounds and reversed pairs included), FreeID(x) for all x in [min-1,max+1]) is applied in every state by replaying the shortest path on a fresh allocator; each transition is checked against a live-set model and followed by the closure check (repeated Allocate returns exactly the free ids). States are distinct by the values of all fields of the allocator. Environment: the library's reads of the wall clock and of the process-local zone go through a seam (source overlay); every path of up to two operations on the ranges of 2..4 identifiers is repeated under 14 clock answers (two dates x the sub-second phases 0, 1 ns, 499 999 999, 500 000 000, 999 499 999, 999 500 000, 999 999 999 ns)."
 		},
 		Bounds: func(tier string) map[string]any {
 			var l []string
